@@ -11,6 +11,8 @@ import (
 	"verifharness/sched"
 
 	"github.com/boz/kcache"
+	"github.com/boz/kcache/filter"
+	metav1 "k8s.io/apimachinery/pkg/apis/meta/v1"
 )
 
 func init() {
@@ -365,13 +367,15 @@ func runC11(c *Ctx) {
 		if i%7 == 0 {
 			r.at = 0 // before anything is ready
 		}
+		c.Now(fmt.Sprintf("shutdown scenario seed=%d size=%d victim=%d mechanism=%s at=%d/%d level=%d", r.seed, r.size, r.victim, r.mechanism, r.at, r.steps, r.level))
 		runShutdown(c, r, false)
 		shutReport(c, r, "C11")
 		if i == 2 {
 			c.Sample(map[string]interface{}{"tree": r.tree, "closed": r.victimK, "mechanism": r.mechanism, "at_step": r.at})
 		}
 	}
-	c.Rep.Rule = "trees mixing Subscribe / SubscribeWithFilter / SubscribeForFilter / Clone / CloneWithFilter / CloneForFilter / monitors to depth 4 on a real controller in virtual time under perturbation; every kind of node as the one being closed; closing moment = every step index of a workload of server changes, Refilters and barriers (including before readiness); mechanisms {Close, 3 concurrent Close, context cancel, fatal list error}. Oracles at the next barrier: every node of the closed subtree has Done() closed and its Events() channel closed; no node outside it is done; the rest of the tree still delivers events and keeps its caches current; Error() is nil for a deliberate close and non-nil for a list error. Non-trivial = every scenario; distinct by (tree, victim, mechanism, step)."
+	reentrantCloses(c, "C11")
+	c.Rep.Rule = "trees mixing Subscribe / SubscribeWithFilter / SubscribeForFilter / Clone / CloneWithFilter / CloneForFilter / monitors to depth 4 on a real controller in virtual time under perturbation; every kind of node as the one being closed; closing moment = every step index of a workload of server changes, Refilters and barriers (including before readiness); mechanisms {Close, 3 concurrent Close, context cancel, fatal list error}. Oracles at the next barrier: every node of the closed subtree has Done() closed and its Events() channel closed; no node outside it is done; the rest of the tree still delivers events and keeps its caches current; Error() is nil for a deliberate close and non-nil for a list error. Plus re-entrant closes: a monitor (on the controller / on a clone) closed from inside its own OnInitialize/OnCreate/OnUpdate/OnDelete callback: Close returns, its Done closes, siblings and publisher keep working, the controller's Close still cascades. Non-trivial = every scenario; distinct by (tree, victim, mechanism, step)."
 }
 
 func runC12(c *Ctx) {
@@ -389,6 +393,7 @@ func runC12(c *Ctx) {
 			r.victim = 1 + c.Rng.Intn(10)
 			r.mechanism = "close"
 		}
+		c.Now(fmt.Sprintf("shutdown scenario seed=%d size=%d victim=%d mechanism=%s at=%d/%d level=%d", r.seed, r.size, r.victim, r.mechanism, r.at, r.steps, r.level))
 		runShutdown(c, r, true)
 		shutReport(c, r, "C12")
 		c.Stat("mechanism_"+r.mechanism, 1)
@@ -397,11 +402,15 @@ func runC12(c *Ctx) {
 		}
 	}
 	// mid-relist and mid-reconnect shutdowns, slow lists, hanging watch connects
-	for i := 0; i < 36; i++ {
+	midModes := []string{"slow-list", "watch-hangs", "watch-errors", "slow-list+watch-hangs", "stream-dropped", "stream-dropped-twice",
+		"list-outlasts-period", "cancel-while-applying-a-list", "close-while-applying-a-list"}
+	for i := 0; i < 6*len(midModes); i++ {
 		var problems []string
+		var stuck string
 		base := sched.LibraryGoroutines()
-		mode := []string{"slow-list", "watch-hangs", "watch-errors", "slow-list+watch-hangs", "stream-dropped", "stream-dropped-twice"}[i%6]
-		at := time.Duration(i/6) * 700 * time.Millisecond
+		mode := midModes[i%len(midModes)]
+		at := time.Duration(i/len(midModes)) * 700 * time.Millisecond
+		c.Now(fmt.Sprintf("Close %v after start with %s", at, mode))
 		dl := sched.Bubble(c.T, func() {
 			srv := fakeapi.New()
 			srv.Set(1, 1, labSets[1], 1)
@@ -413,11 +422,22 @@ func runC12(c *Ctx) {
 				case "watch-hangs", "slow-list+watch-hangs":
 					return "hang"
 				case "watch-errors":
-					return "error"
+					return fakeapi.ConnectError(n)
 				}
 				return "ok"
 			}
-			ct := newCtlWith(srv, c.Seed+int64(i), i%3, 2*time.Second, nil)
+			var ff filter.Filter
+			switch mode {
+			case "list-outlasts-period":
+				// the refresh timer fires (and its tick stays pending) while a list is in flight
+				srv.ListLatency = func(int) time.Duration { return 5 * time.Second }
+			case "cancel-while-applying-a-list", "close-while-applying-a-list":
+				// applying a list takes 3s (2 objects, 1.5s per filter call): the
+				// shutdown lands inside the initial sync or inside a relist's sync
+				srv.Set(1, 2, labSets[1], 1)
+				ff = filter.FN(func(metav1.Object) bool { time.Sleep(1500 * time.Millisecond); return true })
+			}
+			ct := newCtlWith(srv, c.Seed+int64(i), i%3, 2*time.Second, ff)
 			t := newTree(ct, nil)
 			t.add(t.root, nSub, nil)
 			cl, _ := t.add(t.root, nFClone, filterFamily()[2])
@@ -439,12 +459,27 @@ func runC12(c *Ctx) {
 				}
 			}
 			done := make(chan struct{})
-			go func() { ct.c.Close(); close(done) }()
+			if mode == "cancel-while-applying-a-list" {
+				go func() { ct.cancel(); <-ct.c.Done(); close(done) }()
+			} else {
+				go func() { ct.c.Close(); close(done) }()
+			}
 			ct.pert.SetLevel(0)
 			sched.Settle()
 			time.Sleep(time.Millisecond)
 			sched.Settle()
+			if ff != nil {
+				// the list being applied finishes first (virtual time); the
+				// controller's select may then pick further ready list results
+				// before the shutdown request (Go picks among ready cases at
+				// random), each costing another slow sync
+				for k := 0; k < 400 && !isClosed(done); k++ {
+					time.Sleep(3 * time.Second)
+					sched.Settle()
+				}
+			}
 			if !isClosed(done) {
+				stuck = sched.LibraryStacks()
 				problems = append(problems, fmt.Sprintf("Close() has not returned (%s, closed %v after start)", mode, at))
 			}
 			if !isClosed(ct.c.Done()) {
@@ -459,6 +494,9 @@ func runC12(c *Ctx) {
 		c.Rep.Evaluations++
 		what := fmt.Sprintf("Close %v after start with %s", at, mode)
 		replay := map[string]interface{}{"scenario": what}
+		if stuck != "" {
+			replay["goroutines_when_close_had_not_returned"] = stuck
+		}
 		if dl != "" {
 			replay["deadlock"] = dl
 			c.Violation("", "hang (bubble deadlock): "+what, replay)
@@ -472,5 +510,6 @@ func runC12(c *Ctx) {
 		c.DistinctCase(what)
 		c.Case(enc.L(enc.I(13), enc.I(0)))
 	}
-	c.Rep.Rule = "trees as in C11 on a real controller in virtual time under perturbation; shutdown triggers {Close, 3 concurrent Close, context cancel, list error} fired at every step index of a running workload (shutdown-point enumeration), plus Close swept over time while a list is slow, the watch connect hangs until cancelled or always fails, and after the server dropped the watch stream (after the reconnect, and inside the retry delay) (mid-relist / mid-reconnect). Oracles: Close() returns and Done() closes at once in virtual time (synctest's deadlock detection is the oracle for 'does not hang'); after the root is done the inventory of goroutines with library frames is back to its value before the scenario; every API call {Subscribe*, Clone*, Refilter, Cache().List/Get, Close} on every stopped node returns a result or ErrNotRunning instead of blocking. Non-trivial = every scenario."
+	reentrantCloses(c, "C12")
+	c.Rep.Rule = "trees as in C11 on a real controller in virtual time under perturbation; shutdown triggers {Close, 3 concurrent Close, context cancel, list error} fired at every step index of a running workload (shutdown-point enumeration), plus Close swept over time while a list is slow, the watch connect hangs until cancelled or always fails, and after the server dropped the watch stream (after the reconnect, and inside the retry delay), while a list outlasts the refresh period (tick pending), and Close / context cancel while the controller is applying a list (initial and relist; slow filter) (mid-relist / mid-reconnect). Oracles: Close() returns and Done() closes at once in virtual time (synctest's deadlock detection is the oracle for 'does not hang'); after the root is done the inventory of goroutines with library frames is back to its value before the scenario; every API call {Subscribe*, Clone*, Refilter, Cache().List/Get, Close} on every stopped node returns a result or ErrNotRunning instead of blocking. Plus a monitor closed from inside each of its own callbacks (re-entrant Close). Non-trivial = every scenario."
 }
